@@ -11,6 +11,12 @@ mod canonization;
 mod hctl_operators_eval;
 mod low_level_operations;
 
+/// Verification hook: re-export of the canonization functions for the /verif correspondence check.
+#[cfg(hctl_verif)]
+pub mod verif_hooks {
+    pub use super::canonization::{get_canonical, get_canonical_and_renaming};
+}
+
 /// Shorthand for mapping of free variables to (optional) labels of their domain.
 pub type VarDomainMap = BTreeMap<String, Option<String>>;
 
